@@ -667,6 +667,16 @@ std::string EncBuf(const std::string& kind, std::size_t cap, std::size_t limit, 
   else return "HARNESS-ERROR kind " + kind;
   return r + " n=" + std::to_string(n) + " bytes=" + Hex(ob.p, n < cap ? n : cap);
 }
+// the same value written twice through one buffer writer: the second Write sees only the REMAINING capacity
+template <typename T>
+std::string EncBufTwice(const std::string& kind, std::size_t cap, const T& v) {
+  OutBuf ob(cap);
+  std::string r1, r2; std::size_t n = 0;
+  if (kind == "buf") { nop::Serializer<nop::BufferWriter> s{ob.p, cap}; r1 = WriteWith(s, v); r2 = WriteWith(s, v); n = s.writer().size(); }
+  else if (kind == "ped") { nop::Serializer<nop::PedanticBufferWriter> s{ob.p, cap}; r1 = WriteWith(s, v); r2 = WriteWith(s, v); n = s.writer().size(); }
+  else return "HARNESS-ERROR kind " + kind;
+  return "first=" + r1.substr(3) + " second=" + r2.substr(3) + " n=" + std::to_string(n) + " bytes=" + Hex(ob.p, n < cap ? n : cap);
+}
 template <typename T, bool Ok> struct CxOps { static std::string enc(std::size_t, const T&) { return "unsupported"; } };
 template <typename T> struct CxOps<T, true> {
   static std::string enc(std::size_t cap, const T& v) {
@@ -739,6 +749,8 @@ std::string LibOps(const std::vector<Sx>& a) {
       Build(h->v, a.at(5));
       const std::string& kind = a.at(2).a;
       std::size_t cap = ParseInt<std::size_t>(a.at(3).a), limit = ParseInt<std::size_t>(a.at(4).a);
+      if (kind == "buf2") return EncBufTwice<T>("buf", cap, h->v);
+      if (kind == "ped2") return EncBufTwice<T>("ped", cap, h->v);
       if (kind == "cx") return CxOps<T, Cx>::enc(cap, h->v);
       if (kind == "fd") return FdOps<T, Fd>::enc(h->v);
       return EncBuf<T>(kind, cap, limit, h->v);
